@@ -56,6 +56,18 @@ def rule_r1(repo, run, P):
             elif isinstance(exc, (ast.Name, ast.Attribute)):
                 name = pyflow.dotted(exc)
             construct = "%s.%s:raise %s" % (mname, q, name)
+            if name in OK_RAISE and not isinstance(exc, ast.Call) and name not in ("SystemExit",):
+                # `raise NotImplementedError` without a message says nothing about the offending input; a method that
+                # only exists to be overridden may do that, if nothing can reach it with user input: the lookup methods
+                # of the node classes are reached from the parser with whatever node a name resolves to
+                # (unqualified_lookup is only ever called on the scope a declaration is read in - library, namespace,
+                # class, block, function - and all of those override it)
+                reach = func is not None and func.name == "qualified_lookup"
+                run.check(R, construct + ":bare", not reach,
+                          "`raise %s` without a message in %s, which the parser calls on whatever node a name resolves to "
+                          "(`void f(std::string::npos x)`): the user sees a traceback ending in a bare exception name" % (name, q),
+                          m.loc(node))
+                continue
             if name in OK_RAISE:
                 run.ok(R, construct + "@%s" % _msgkey(m, exc))
                 continue
@@ -1024,6 +1036,22 @@ def rule_r11(repo, run):
                       "after a `,` the loop goes back to `while self.token.typ != %r`: when the next token is the closer the list "
                       "ends normally, so `(a,)` / `<T,>` is silently accepted" % closer, dm.loc(lp))
     run.floor(R, "separator loops of the parser", n, 5)
+    # a list that must have an element: `template<>` has no parameter for FunctionNode to name the instantiations by
+    ts = dm.func("Parser.template_statement")
+    lps = [l for l in ast.walk(ts) if isinstance(l, ast.While) and "self.token.typ != 'GT'" in str(dm.seg(l.test))]
+    if not lps:
+        raise AnalysisError("C17.R11: the parameter loop of Parser.template_statement was not found")
+    lp0 = lps[0]
+    empty_rejected = False
+    for g in ast.walk(ts):
+        if isinstance(g, ast.If) and g.lineno < lp0.lineno and "GT" in str(dm.seg(g.test)) and \
+                any((pyflow.call_name(c) or "") == "self.error_msg" or isinstance(c, ast.Raise) for st in g.body for c in ast.walk(st)):
+            empty_rejected = True
+    after = [i for i in ast.walk(ts) if isinstance(i, ast.If) and i.lineno > lp0.end_lineno and "parameters" in str(dm.seg(i.test))
+             and any((pyflow.call_name(c) or "") == "self.error_msg" or isinstance(c, ast.Raise) for st in i.body for c in ast.walk(st))]
+    run.check(R, "declast.Parser.template_statement:empty-parameter-list", empty_rejected or bool(after),
+              "the loop `while self.token.typ != 'GT'` does not run for `template<>` and nothing rejects the empty list: "
+              "FunctionNode.__init__ reads template_parameters.parameters[0] (IndexError)", dm.loc(lp0))
     # a parser method that begins by *consuming* a token it has not looked at ("consume LPAREN peeked at in caller") relies
     # on every caller having seen that token
     am_ = repo.module("ast")
@@ -1469,6 +1497,45 @@ def rule_r14(repo, run):
     run.floor(R, "radix conversions", nconv, 3)
 
 
+def rule_r15(repo, run):
+    R = run.rule("C17.R15", "the name of a helper is built from a statement template and the type of the argument; a wrapper that "
+                            "looks such a name up in the helper tables has made sure it is there (a type without that helper is "
+                            "reported), or takes the name from the set of helpers that were registered that way")
+    n = 0
+    for mn in ("wrapc", "wrapf", "wrapp", "wrapl"):
+        m = repo.module(mn)
+        for q, fn in sorted(m.functions().items()):
+            for x in ast.walk(fn):
+                if not (isinstance(x, ast.Subscript) and isinstance(x.ctx, ast.Load) and ast.unparse(x.value) in ("whelpers.CHelpers", "whelpers.FHelpers")
+                        and not isinstance(x.slice, ast.Constant)):
+                    continue
+                n += 1
+                table = ast.unparse(x.value)
+                key = ast.unparse(x.slice)
+                tests = [ast.unparse(t) for t, pol in pyflow.early_exit_guards(fn, x)] + \
+                        [ast.unparse(t) for t, pol in pyflow.dominating_tests(x, stop=fn) if pol]
+                checked = any(("%s in %s" % (key, table)) in t or ("%s not in %s" % (key, table)) in t for t in tests)
+                # the key is a parameter that every caller takes from the registered set / a helper's dependent_helpers
+                registered = False
+                params = [a.arg for a in fn.args.args]
+                if isinstance(x.slice, ast.Name) and x.slice.id in params and not checked:
+                    sites = [c for q2, f2 in m.functions().items() for c in ast.walk(f2)
+                             if isinstance(c, ast.Call) and isinstance(c.func, ast.Attribute) and c.func.attr == fn.name]
+                    ok_sites = 0
+                    for c in sites:
+                        a = c.args[params.index(x.slice.id) - 1] if len(c.args) >= params.index(x.slice.id) else None
+                        if isinstance(a, ast.Name):
+                            lp = [p_ for p_ in parent_chain(c) if isinstance(p_, ast.For) and pyflow.is_name(p_.target, a.id)]
+                            if lp and re.search(r"helper", ast.unparse(lp[0].iter)):
+                                ok_sites += 1
+                    registered = bool(sites) and ok_sites == len(sites)
+                run.check(R, "%s.%s:%s[%s]" % (mn, q, table.split(".")[-1], key), checked or registered,
+                          "`%s[%s]` is looked up without a test that the name exists: for a type the statements have no helper for "
+                          "(`std::vector<std::string> &arg +intent(out)` names copy_array_std_string) the generator stops with "
+                          "KeyError" % (table, key), m.loc(x))
+    run.floor(R, "helper table lookups in the wrappers", n, 4)
+
+
 def loader_modules():
     from sa.loader import PY_MODULES
     return PY_MODULES
@@ -1489,4 +1556,5 @@ def run(repo, run, tier):
     rule_r11(repo, run)
     rule_r13(repo, run)
     rule_r14(repo, run)
+    rule_r15(repo, run)
     rule_r12(repo, run)
